@@ -571,6 +571,13 @@ where
                 // (and whether the other entity is the item's own: same value identity)
                 let mut owns: Vec<Value> = vec![];
                 let mut first = true;
+                // a refused handle whose index now belongs to another live entity: the same item is then
+                // asked for that live entity (fetched, not written) and once more for the refused handle
+                // - two lookups on ONE item, an accepted one first (pre_h / pre_ress / ress2)
+                let live = world.entities().entity(e.id());
+                let prime = live != e && world.entities().is_alive(live);
+                let mut pre_ress: Vec<Value> = vec![];
+                let mut ress2: Vec<Value> = vec![];
                 while let Some(mut item) = it.next() {
                     let own_before = item.get().js();
                     let got = match item.get_other_mut(e) {
@@ -584,6 +591,16 @@ where
                         }
                         None => absent(),
                     };
+                    if prime && got == absent() {
+                        pre_ress.push(match item.get_other_mut(live) {
+                            Some(a) => (&*a).js(),
+                            None => absent(),
+                        });
+                        ress2.push(match item.get_other_mut(e) {
+                            Some(a) => (&*a).js(),
+                            None => absent(),
+                        });
+                    }
                     let own_after = item.get().js();
                     let same = got != absent() && got[0] == own_before[0];
                     owns.push(json!([own_before, own_after, same]));
@@ -592,6 +609,9 @@ where
                 }
                 if ress.is_empty() {
                     json!({"cls":"skip"})
+                } else if !pre_ress.is_empty() {
+                    json!({"cls":"write","res": ress[0].clone(), "ress_w": ress, "owns": owns,
+                           "pre_h": [live.id(), live.gen().id()], "pre_ress": pre_ress, "ress2": ress2})
                 } else {
                     json!({"cls":"write","res": ress[0].clone(), "ress_w": ress, "owns": owns})
                 }
